@@ -187,10 +187,6 @@ pub fn run(cfg: &Cfg, rep: &mut Report) {
             ty!(scpi::parser::format::Arbitrary, "Arbitrary", ["block"]);
             ty!(scpi::parser::format::Character, "Character", ["chardata"]);
         }
-        // an unknown character datum for a numeric target is a type fault as well
-        expect_class(ctx, "i32 from chardata POTATO", "wrong-element-type", i32::try_from(Token::CharacterProgramData(b"POTATO")).err().map(|e| e.get_code()), true);
-        expect_class(ctx, "f64 from chardata POTATO", "wrong-element-type", f64::try_from(Token::CharacterProgramData(b"POTATO")).err().map(|e| e.get_code()), true);
-
         // --- value faults (must be execution errors)
         let big = format!("{}", 300 + rng.below(1_000_000));
         expect_class(ctx, "u8 from out-of-range literal", "out-of-range", u8::try_from(Token::DecimalNumericProgramData(big.as_bytes())).err().map(|e| e.get_code()), false);
